@@ -31,7 +31,9 @@ Inductive param := PNum (v : Z) | PSym (k : nat) | PExpr (e k : nat).
 Inductive uparam := UNum (v : Z) | UArr (k t : nat) | UExpr (e k t : nat).
 
 Record rcmd := mkR { r_op : nat; r_params : list param; r_regs : list nat;
-                     r_meas : bool; r_dag : bool; r_sel : bool }.
+                     r_meas : bool; r_dag : bool; r_sel : bool;
+                     r_ctor : bool  (* type(op)( *op.p ) is a well-formed constructor call; false for
+                                       Fouriergate, whose p = [pi/2] while __init__ takes no argument *) }.
 Record ucmd (M : Type) := mkU { u_op : nat; u_params : list uparam; u_modes : list M;
                                 u_dag : bool; u_sel : bool }.
 Arguments mkU {M}. Arguments u_op {M}. Arguments u_params {M}. Arguments u_modes {M}.
@@ -56,8 +58,8 @@ Definition subst_impl (timebins t : nat) (p : param) : option uparam :=
   end.
 Definition apply_op {M} (timebins : nat) (c : rcmd) (modes : list M) (t : nat) : option (ucmd M) :=
   match mapM (subst_impl timebins t) (r_params c) with
-  | Some ps => Some (mkU (r_op c) ps modes false false)
-  | None => None
+  | Some ps => if r_ctor c then Some (mkU (r_op c) ps modes false false) else None   (* TypeError *)
+  | None => None                                                                    (* AttributeError *)
   end.
 
 (* what the explicit loop written by hand does: the same operation (flags kept) with every
@@ -177,7 +179,8 @@ Definition loop_program_int (s timebins : nat) (cs : list rcmd) (shots : nat) : 
 
 (* a rolled circuit the implementation's apply_op treats faithfully *)
 Definition plain_param (p : param) : bool := match p with PExpr _ _ => false | _ => true end.
-Definition plain_cmd (c : rcmd) : bool := forallb plain_param (r_params c) && negb (r_dag c) && negb (r_sel c).
+Definition plain_cmd (c : rcmd) : bool :=
+  forallb plain_param (r_params c) && negb (r_dag c) && negb (r_sel c) && r_ctor c.
 
 (* ---------------------------------------------------------------- unroll / space_unroll / roll *)
 Inductive circ := CRolled | CUnrolled (u : list (ucmd nat)).
